@@ -5,20 +5,49 @@ From VV Require Export Sv.Sem Sv.ClockReset.
 Open Scope N_scope.
 
 (* ------------------------------------------------------------------ emit: expressions (operator for operator) *)
-Fixpoint emit_expr (e : expr) {struct e} : svexpr :=
+(* Brace removal (Emitter::factor, `remove_brace`): a concatenation with ONE item drops its own braces when
+   that item is itself a concatenation (`{{a, b}}` prints `{a, b}`) or a repeat (`{a repeat n}` prints the bare
+   replication `{n{a}}`).  In the µSV AST a replication that stands as an item of an enclosing concatenation
+   is the counted item (a, n), so `{x, {a repeat n}}` reads back as the items (x, 1), (a, n).  [canon] brings
+   a Veryl expression to the form whose item structure is what the printed text shows. *)
+Definition canon_item (a : expr) (n : N) : expr * N :=
+  match a, n with
+  | ECat [(b, m)], 1 => if m =? 1 then (a, n) else (b, m)
+  | _, _ => (a, n)
+  end.
+Definition canon_top (its : list (expr * N)) : expr :=
+  match its with
+  | [(ECat inner, 1)] => ECat inner
+  | _ => ECat its
+  end.
+Fixpoint canon (e : expr) {struct e} : expr :=
+  match e with
+  | ELit _ _ _ _ | EVar _ | ESel _ _ _ => e
+  | EUn o a => EUn o (canon a)
+  | EBin o a b => EBin o (canon a) (canon b)
+  | ETern c a b => ETern (canon c) (canon a) (canon b)
+  | ECat items =>
+      canon_top ((fix go (l : list (expr * N)) : list (expr * N) :=
+                    match l with [] => [] | (a, n) :: t => canon_item (canon a) n :: go t end) items)
+  | ECast w a => ECast w (canon a)
+  | ESign sg a => ESign sg (canon a)
+  end.
+
+Fixpoint emit_plain (e : expr) {struct e} : svexpr :=
   match e with
   | ELit w sg p m => XLit w sg p m
   | EVar x => XVar x
   | ESel x hi lo => XSel x hi lo
-  | EUn o a => XUn o (emit_expr a)
-  | EBin o a b => XBin o (emit_expr a) (emit_expr b)            (* <: >: are spelled < > *)
-  | ETern c a b => XTern (emit_expr c) (emit_expr a) (emit_expr b)   (* ((c) ? (a) : (b)) *)
+  | EUn o a => XUn o (emit_plain a)
+  | EBin o a b => XBin o (emit_plain a) (emit_plain b)            (* <: >: are spelled < > *)
+  | ETern c a b => XTern (emit_plain c) (emit_plain a) (emit_plain b)   (* ((c) ? (a) : (b)) *)
   | ECat items => XCat ((fix go (l : list (expr * N)) : list (svexpr * N) :=
-                           match l with [] => [] | (a, n) :: t => (emit_expr a, n) :: go t end) items)
+                           match l with [] => [] | (a, n) :: t => (emit_plain a, n) :: go t end) items)
                                                                  (* `a repeat n` is spelled {n{a}} *)
-  | ECast w a => XCast w (emit_expr a)                          (* `a as w` is spelled w'(a) *)
-  | ESign sg a => XSign sg (emit_expr a)
+  | ECast w a => XCast w (emit_plain a)                          (* `a as w` is spelled w'(a) *)
+  | ESign sg a => XSign sg (emit_plain a)
   end.
+Definition emit_expr (e : expr) : svexpr := emit_plain (canon e).
 
 (* a case statement is printed as plain `case` when every item is a 2-state value, else as `case inside`
    (Emitter::is_simple_case_statement) *)
@@ -153,6 +182,9 @@ Fixpoint expr_ok (D : decls) (e : expr) {struct e} : bool :=
   | ESign _ a => okw_with (expr_ok D) a
   end.
 Definition expr_okw (D : decls) : expr -> bool := okw_with (expr_ok D).
+(* ... of the expression as printed (after brace removal) *)
+Definition expr_okc (D : decls) (e : expr) : bool := expr_ok D (canon e).
+Definition expr_okwc (D : decls) (e : expr) : bool := expr_okw D (canon e).
 
 (* a plain `case` compares at the width of the widest item: the items must be unsigned 2-state literals of
    the selector's width (what the generator produces); a `case inside` has no such condition *)
@@ -164,17 +196,17 @@ Definition simple_pat (D : decls) (sel : expr) (p : expr) : bool :=
 
 Fixpoint stmt_ok (D : decls) (s : stmt) {struct s} : bool :=
   match s with
-  | SAssign _ e => expr_ok D e
-  | SAssignSel _ _ _ e => expr_ok D e
+  | SAssign _ e => expr_okc D e
+  | SAssignSel _ _ _ e => expr_okc D e
   | SIf c t f =>
-      expr_okw D c &&
+      expr_okwc D c &&
       (fix go (l : list stmt) : bool := match l with [] => true | s' :: r => stmt_ok D s' && go r end) t &&
       (fix go (l : list stmt) : bool := match l with [] => true | s' :: r => stmt_ok D s' && go r end) f
   | SCase sel arms dflt =>
-      expr_ok D sel &&
+      expr_okc D sel &&
       (if arms_2state arms
        then forallb (fun arm : list expr * list stmt => forallb (simple_pat D sel) (fst arm)) arms
-       else forallb (fun arm : list expr * list stmt => forallb (expr_ok D) (fst arm)) arms) &&
+       else forallb (fun arm : list expr * list stmt => forallb (expr_okc D) (fst arm)) arms) &&
       (fix pick (l : list (list expr * list stmt)) : bool :=
          match l with
          | [] => true
@@ -187,7 +219,7 @@ Fixpoint stmt_ok (D : decls) (s : stmt) {struct s} : bool :=
 
 Definition item_ok (D : decls) (it : item) : bool :=
   match it with
-  | IAssign _ e => expr_ok D e
+  | IAssign _ e => expr_okc D e
   | IComb body => forallb (stmt_ok D) body
   | IFf r body => match r with Some l => forallb (stmt_ok D) l | None => true end && forallb (stmt_ok D) body
   end.
